@@ -6,4 +6,5 @@ INVARIANT Cl_BestOfGrid
 INVARIANT Cl_VLEBestOfMethods
 INVARIANT Cl_FunctionForm
 INVARIANT Ref_NoRaise
+INVARIANT Ref_VLEReturns
 CHECK_DEADLOCK FALSE
